@@ -78,7 +78,9 @@ HoldsRun(cl, o, run) ==
     IF cl = "Returns" THEN run.raised = "" /\ AffOk(o, run)
     ELSE IF run.raised # "" \/ ~AffOk(o, run) THEN TRUE                 \* reported once, by Returns
     ELSE CASE cl = "Cover"        -> CoverOf(M, n, m)
-           [] cl = "PositiveOnly" -> PositiveOf(M, WOf(o, run), n, m)
+           [] cl = "PositiveOnly" ->
+                 IF IsLat(o) THEN PositiveOf(M, WOf(o, run), n, m)
+                 ELSE InRange(M, n, m) => \A p \in PairsOf(M) : run.aff[p[1]][p[2]].l[1] = 1     \* the sign of the double, not its floor
            [] cl = "ReportedAffinity" ->
                  InRange(M, n, m) => \A k \in DOMAIN M : IsPair(M[k]) =>
                      /\ M[k].a.h = run.aff[Some(M[k].s)][Some(M[k].t)].h             \* exactly the code's own affinity
